@@ -299,7 +299,9 @@ def concrete_check(B, sch, fmt, which, name, model):
         import gffutils.feature as F
         import gffutils.helpers as H
         want = B.bins(s, e, one=True)
-        got = [F.Feature(seqid="c", start=s, end=e).bin, F.Feature(seqid="c", start=s, end=e).astuple()[-1],
+        f2 = F.Feature(seqid="c", start=1, end=2)  # as in the symbolic harness: coordinates edited after construction
+        f2.start, f2.end = s, e
+        got = [F.Feature(seqid="c", start=s, end=e).bin, f2.astuple()[-1],
                H._bin_from_dict({"start": str(s), "end": str(e)})]
         return all(g == want for g in got), "bins=%r, Feature.bin/astuple/_bin_from_dict=%r" % (want, got)
     try:
